@@ -4,6 +4,8 @@
 import GeoModel.Parse
 import GeoModel.RelateSpec
 import GeoModel.Valid
+import GeoModel.RelateImplTop
+import GeoModel.F64
 
 namespace Geo.Ops.C01
 open Geo Geo.P
@@ -79,10 +81,124 @@ def handleDims (inp out : List String) : String :=
       ((dims g).str ++ " " ++ (boundaryDims g).str ++ " " ++ toString (isEmptyEnum g)) (String.intercalate " " out)
   | _, _ => "ERR parse"
 
+
+/-! ### `C01.impl`: the model of the implementation against the implementation -/
+
+/-- Coordinates so small (or large) that products of coordinate differences underflow (overflow): Shewchuk's
+adaptive predicates behind `RobustKernel` and the crossing-point computation of `line_intersection` are not
+exact / accurate there (known finding K10, see `Ops/C11.lean`). -/
+def underflowRange (ps : List Pt) : Bool :=
+  let tiny : Rat := pow2 (-400)
+  let huge : Rat := pow2 400
+  ps.any (fun p => (p.x != 0 && rabs p.x < tiny) || (p.y != 0 && rabs p.y < tiny) ||
+    rabs p.x > huge || rabs p.y > huge)
+
+/-- a rational that is a finite binary64 value -/
+def isF64 (q : Rat) : Bool := roundF64 q == q
+
+/-- class of the crossing points self-noding records on the edges of an operand: `none` (no proper
+self-crossing), `exact` (all of them binary64 points) or `rounded` (the code's node sits beside the
+exact crossing point the model uses) -/
+def selfCrossClass (g : RI.RGraph) : String :=
+  let vs := g.edges.flatMap (fun e => e.coords)
+  let xs := (g.edges.flatMap (fun e => e.eis.map (·.coord))).filter (fun p => !(vs.any (· == p)))
+  if xs.isEmpty then "none"
+  else if xs.all (fun p => isF64 p.x && isF64 p.y) then "exact" else "rounded"
+
+def liPoints : LI → List Pt
+  | .single p _ => [p]
+  | .collinear a b => [a, b]
+
+def recorded (es : List RI.REdge) (edge : Nat) (p : Pt) : Bool :=
+  match es[edge]? with
+  | some e => e.eis.any (·.coord == p)
+  | none => false
+
+/-- Is every intersection point self-noding finds on record (with its own coordinate) on both edges
+afterwards? `false` means that two *different* points of one segment got the same key (segment index,
+rounded distance) in the `BTreeSet` of an edge, so that the point kept is the one the R-tree traversal happened to
+visit first — a rounding tie the model (which visits the pairs in another order) does not decide. -/
+def selfComplete (ar : RI.Arith) (g : RI.RGraph) (final : List RI.REdge) : Bool :=
+  let check := !RI.isRings g.geom
+  let all := RI.allSegs g.edges
+  all.all (fun s0 => all.all (fun s1 =>
+    if !(check || s0.edge != s1.edge) then true
+    else if s0.edge == s1.edge && s0.idx == s1.idx then true
+    else match RI.lineIntersectionWith ar s0.p s0.q s1.p s1.q with
+      | none => true
+      | some li =>
+        match g.edges[s0.edge]? with
+        | none => true
+        | some e0 =>
+          if RI.isTrivial li (s0.edge == s1.edge) s0.idx s1.idx e0 then true
+          else (liPoints li).all (fun p => recorded final s0.edge p && recorded final s1.edge p)))
+
+/-- the same for the improper intersections recorded between the two operands -/
+def mutualComplete (ar : RI.Arith) (ga gb : RI.RGraph) (fa fb : List RI.REdge) : Bool :=
+  (RI.allSegs ga.edges).all (fun s0 => (RI.allSegs gb.edges).all (fun s1 =>
+    match RI.lineIntersectionWith ar s0.p s0.q s1.p s1.q with
+    | none => true
+    | some li =>
+      if RI.LI.isProper li then true
+      else (liPoints li).all (fun p => recorded fa s0.edge p && recorded fb s1.edge p)))
+
+/-- `C01.impl <A> <B> => <relate(A,B)>`: `AGREE` iff `relateImpl? A B` (the model of the topology-graph
+algorithm) is the implementation's matrix (`panic` = `none`); `prop=` is the specification's verdict for operands in the
+DE-9IM validity domain and `PASS` outside of it (the specification does not apply there, the model of the
+implementation still has to agree with the implementation). -/
+def handleImpl (inp out : List String) : String :=
+  let pin : P (Geom × Geom) := do let a ← geometry; let b ← geometry; pure (a, b)
+  let rowP : P ((Pt × Pt × Pt × Pt) × Pt) := do
+    let p1 ← pt; let p2 ← pt; let q1 ← pt; let q2 ← pt; let x ← pt; pure ((p1, p2, q1, q2), x)
+  let pout : P (Option IM × List ((Pt × Pt × Pt × Pt) × Pt)) := do
+    let m ← imP; lit "X"; let rows ← counted rowP; pure (m, rows)
+  match P.run pin inp, P.run pout out with
+  | some (a, b), some (ab, table) =>
+    -- the crossing-point routine: what the code's `line_intersection` returned for this pair of
+    -- segments (exact rational point for a pair the table does not list)
+    let cross (p1 p2 q1 q2 : Pt) : Pt :=
+      match table.find? (fun r => r.1 == (p1, p2, q1, q2)) with
+      | some r => r.2
+      | none => properPoint p1 p2 q1 q2
+    -- binary64 subtraction (exact emulation) for edge distances and edge-end directions
+    let ar : RI.Arith := ⟨cross, fsub⟩
+    let model := RI.relateImplWith ar a b
+    -- rounding ties in the keys of the intersection sets (visiting order of the R-tree decides)
+    let fa0 := RI.RGraph.new 0 a
+    let fb0 := RI.RGraph.new 1 b
+    let fa := fa0.selfNode ar
+    let fb := fb0.selfNode ar
+    let (ma, mb, _, _) := RI.mutualGraphs ar fa fb
+    let tie := RI.envelopesMeet a b &&
+      !(selfComplete ar fa0 fa.edges && selfComplete ar fb0 fb.edges && mutualComplete ar fa fb ma.edges mb.edges)
+    if tie then skip "near-tie:intersection-key-collision" else
+    -- subnormal coordinates: `robust::orient2d` is not exact there (K10), the model's orientation is
+    if ab != model && underflowRange (coordsIter a ++ coordsIter b) then skip "underflow-range:orientation-inexact" else
+    let exactModel := RI.relateImpl? a b
+    let dom := inDomain a && inDomain b
+    let prop :=
+      if !dom then "PASS"
+      else if ab.isNone then "FAIL:panic"
+      else if ab != some (relateSpec a b) then
+        (if underflowRange (coordsIter a ++ coordsIter b) then "FAIL:matrix-wrong-underflow-range" else "FAIL:matrix-wrong")
+      else "PASS"
+    let rel := bboxRel a b
+    let ga := (RI.RGraph.new 0 a).selfNode RI.Arith.exact
+    let gb := (RI.RGraph.new 1 b).selfNode RI.Arith.exact
+    let shw (x : Option IM) := match x with | some m => m.str | none => "panic"
+    let tags := "impl A=" ++ tagOf a ++ " B=" ++ tagOf b ++ " " ++ rel ++ " domain=" ++ (if dom then "in" else "out") ++
+      " self-cross=" ++ selfCrossClass ga ++ "/" ++ selfCrossClass gb ++ " m=" ++ shw model ++
+
+      (if exactModel == model then "" else " rounded-crossing-changes-matrix exact=" ++ shw exactModel) ++
+      (if rel == "bbox-disjoint" || rel == "bbox-empty" then " triv" else "")
+    reply (ab == model) prop tags (shw model) (shw ab)
+  | _, _ => "ERR parse"
+
 def handle (op : String) (inp out : List String) : Option String :=
   match op with
   | "C01.dims" => some (handleDims inp out)
   | "C01.rel" => some (handleRel inp out)
+  | "C01.impl" => some (handleImpl inp out)
   | _ => none
 
 end Geo.Ops.C01
